@@ -122,6 +122,11 @@ def run_weak(chk, spec):
 		"rlshift": lambda: [w] << v,
 		"cast-str": lambda: v.cast(str), "cast-float": lambda: v.cast(float), "cast-int": lambda: v.cast(int), "cast-bool": lambda: v.cast(bool),
 		"cast-callable": lambda: v.cast(lambda x: (x,)),
+		"cast-date-from-iso": lambda: Vector([None if x is None else "2020-01-%02d" % (1 + abs(hash(str(x))) % 28) for x in vals]).cast(date),
+		"cast-datetime-from-iso": lambda: Vector([None if x is None else "2020-01-%02dT05:00:00" % (1 + abs(hash(str(x))) % 28) for x in vals]).cast(datetime),
+		"cast-date-of-dates": lambda: Vector([None if x is None else V.D0 for x in vals]).cast(date),
+		"new-empty": lambda: Vector.new(w, 0),
+		"new-empty-typesafe": lambda: Vector.new(w, 0, typesafe=True) << [w],
 		"fillna-same": lambda: v.fillna(rng.choice(common.ARITH_VALUES[kind])),
 		"fillna-wider": lambda: v.fillna(w),
 		"fillna-integral-wider": lambda: v.fillna({"bool": 1, "int": 0.0, "float": complex(1, 0), "date": datetime(2020, 1, 31)}.get(kind, w)),
@@ -203,7 +208,7 @@ def run_history(chk, spec):
 RUNNERS = {"weak": run_weak, "assign": run_assign, "history": run_history, "recompute": recompute.runner("C03")}
 
 WEAK_OPS = ["radd-scalar", "radd-list", "rsub-scalar", "rmul-scalar", "rtruediv", "rpow", "add-wider-scalar", "add-wider-vector", "neg", "pos", "abs", "invert",
-	"lshift-wider", "lshift-none", "lshift-str", "lshift-list-mixed", "lshift-vector", "rlshift", "cast-str", "cast-float", "cast-int", "cast-bool", "cast-callable",
+	"lshift-wider", "lshift-none", "lshift-str", "lshift-list-mixed", "lshift-vector", "rlshift", "cast-str", "cast-float", "cast-int", "cast-bool", "cast-callable", "cast-date-from-iso", "cast-datetime-from-iso", "cast-date-of-dates", "new-empty", "new-empty-typesafe",
 	"fillna-same", "fillna-wider", "fillna-none", "fillna-integral-wider", "lshift-vector-none", "lshift-vector-same", "and-int", "or-vector", "xor-list",
 	"new-equal-narrower-first", "agg-stdev", "win-stdev", "dropna", "isna", "unique", "sort", "to_object", "T", "slice", "mask", "pluck", "new", "new-typesafe", "isinstance",
 	"compare", "matmul-table", "table-sum", "table-max", "table-mean"]
